@@ -259,7 +259,7 @@ void VH_FN(std::vector<ix::Segment>& out) {
         s.count = [](bool th) { return th ? 1500L : 150L; };
         s.run = [](long kk, uint64_t seed, bool, Result& res) {
             vh::Rng r(vh::mix(seed ^ 0x611, uint64_t(kk) * 16 + D * 2 + PER));
-            const long L = r.range(PER ? 1 : 0, std::max<long>(2, exhaustiveMaxLevel(false)));
+            const long L = (kk % 10 == 0) ? 0 : r.range(0, std::max<long>(2, exhaustiveMaxLevel(false)));   // level 0 regularly: with the periodic ordering every image wraps onto the root cell
             const long H = L + 1;
             const Cfg cfg = makeCfg(H); const Space sp(cfg);
             long cells = 1; for (int d = 0; d < D; ++d) cells *= (1L << L);
